@@ -390,6 +390,9 @@ wrapint wrapint::lshr(wrapint x) const {
 // arithmetic right shift
 wrapint wrapint::ashr(wrapint x) const {
   sanity_check_bitwidths(x);
+  if (x._n == 0) {
+    return *this;
+  }
   if (!msb()) {
     return wrapint(_n >> x._n, _width, _mod);
   } else {
